@@ -67,11 +67,13 @@ def handle (op : String) (j : Json) : Except String Json := do
     let sess : List Sess := (sessRaw.foldl (fun (acc : List Sess × List (List Row)) msk =>
       (acc.1 ++ [⟨if msk.1 == "w" then Mode.write else Mode.append, msk.2.1, acc.2.take msk.2.2⟩], acc.2.drop msk.2.2))
       ([], pieces)).1
-    let hdr : C02.Bytes := if isVcf fmt then Gen.C03.vcfDefaultHeader else []
+    -- csvh: a delimited buffer with a column-name header line ("name\tsize\n")
+    let hdr : C02.Bytes := if isVcf fmt then Gen.C03.vcfDefaultHeader
+      else if fmt == "csvh" then toBytes "name\tsize\n" else []
     let dump := dumpModel fmt
     let bytes := runAll hdr dump [] sess
     let m := Json.mkObj [("bytes", txt bytes)]
-    let nh : Nat := if isVcf fmt && sess.flatMap Sess.calls != [] then 1 else 0
+    let nh : Nat := if (isVcf fmt || fmt == "csvh") && sess.flatMap Sess.calls != [] then 1 else 0
     let s := Json.mkObj [("body", txt (dumpCanon fmt rows)), ("headers", nat nh)]
     pure (reply m (some s))
   | _ => throw s!"C03: unknown op {op}"
